@@ -50,6 +50,7 @@ func init() {
 		"vEmit":         hEmit,
 		"vYield":        func(in *Interp, th *Thread, a []Value, fn *ssa.Function) (Value, callStatus) { return nil, csDone },
 		"vConsumed":     hConsumed,
+		"vQuiesce":      func(in *Interp, th *Thread, a []Value, fn *ssa.Function) (Value, callStatus) { return nil, csDone },
 		"vSliceLen":     hSliceLen,
 		"vSliceSwap":    hSliceSwap,
 		"vComparable":   hComparable,
